@@ -410,6 +410,55 @@ fn exhaustive<A: AllocOps + Send>(ty: &'static str, lo: u64, hi: u64, tmax: u64,
     rep
 }
 
+/// long runs of used values: the first `n` values of the whole range of the type are allocated, then single values are
+/// released whose nearest free neighbour is up to `n` values away (for a signed element type that distance exceeds
+/// T::MAX), then everything is drained from both ends inwards; queries after every release
+fn far_neighbours<A: AllocOps>(ty: &'static str, tmax: u64, n: u64, case: (u64, u64), rep: &mut Report) {
+    let (lo, hi) = (0u64, tmax);
+    let mut a = match guard::call(|| A::new(lo, hi)) {
+        Ok(a) => a,
+        Err(p) => {
+            rep.violate(viol("panic", ty, lo, hi, &[], format!("new panicked: {}", p.message), case));
+            return;
+        }
+    };
+    let mut m = Model { lo, hi, used: BTreeSet::new() };
+    rep.evaluations += 1;
+    rep.hit("A11-release-with-a-distant-free-neighbour");
+    for k in 0..n {
+        match guard::call(|| a.allocate()) {
+            Ok(Some(v)) if v == k => {
+                m.used.insert(v);
+            }
+            other => {
+                rep.violate(viol("A1-allocate-smallest-free", ty, lo, hi, &[Op::Allocate], format!("allocate #{} on a fresh allocator returned {:?}", k, other.map_err(|p| p.message)), case));
+                return;
+            }
+        }
+    }
+    rep.api_calls += n;
+    let qp: Vec<u64> = vec![lo, lo + 1, n / 2, n.saturating_sub(2), n.saturating_sub(1), n.min(hi), hi];
+    let mut order: Vec<u64> = vec![0, n - 1, n / 2, 1, n / 2 + 1, n / 2 - 1];
+    order.dedup();
+    for v in order {
+        if !m.used.contains(&v) {
+            continue;
+        }
+        if let Err(f) = step(&mut a, &mut m, Op::Release(v), &qp, rep) {
+            rep.violate(viol(f.rule, ty, lo, hi, &[Op::Release(v)], format!("after allocating the first {} values of the range: {}", n, f.detail), case));
+            return;
+        }
+    }
+    // and the values come back smallest first
+    for _ in 0..4 {
+        if let Err(f) = step(&mut a, &mut m, Op::Allocate, &qp, rep) {
+            rep.violate(viol(f.rule, ty, lo, hi, &[Op::Allocate], format!("after releasing scattered values of a run of {}: {}", n, f.detail), case));
+            return;
+        }
+    }
+    rep.distinct_case(format!("far {} {}", ty, n).as_bytes());
+}
+
 fn random_seq<A: AllocOps>(ty: &'static str, lo: u64, hi: u64, tmax: u64, nops: usize, seed: u64, case: (u64, u64), rep: &mut Report) {
     let mut r = Rng::new(seed);
     let mut a = match guard::call(|| A::new(lo, hi)) {
@@ -782,6 +831,17 @@ pub fn run(ctx: &Ctx) -> Report {
         }
     });
     total.merge(r2);
+    let r2b = run_cases(ctx, 6, 8, "", |i, _seed, rep| match i {
+        0 => far_neighbours::<SignedI8>("i8", 255, 130, (6, i), rep),
+        1 => far_neighbours::<SignedI8>("i8", 255, 256, (6, i), rep),
+        2 => far_neighbours::<SignedI16>("i16", 65535, 32770, (6, i), rep),
+        3 => far_neighbours::<SignedI16>("i16", 65535, 65536, (6, i), rep),
+        4 => far_neighbours::<ValueAllocator<u8>>("u8", 255, 256, (6, i), rep),
+        5 => far_neighbours::<ValueAllocator<u16>>("u16", 65535, 65536, (6, i), rep),
+        6 => far_neighbours::<ValueAllocator<u16>>("u16", 65535, 40000, (6, i), rep),
+        _ => far_neighbours::<ValueAllocator<u32>>("u32", u32::MAX as u64, 70000, (6, i), rep),
+    });
+    total.merge(r2b);
     let n3 = ctx.budget(300, 20_000);
     let r3 = run_cases(ctx, 3, n3, "", |i, seed, rep| pid_manager_seq(seed, 400, (3, i), rep));
     total.merge(r3);
